@@ -1451,8 +1451,63 @@ const DEFECTS: &[Defect] = &[
         };
         true
     }),
+    // ---- the rest of C19's single-respect list (added after the external seeded change C01-mut1)
+    ("noc_akid_removed", |w, a| with_chain(w, a, |n, _, _| n.akid = None)),
+    ("noc_issuer_attr_removed", |w, a| with_chain(w, a, |n, _, _| { n.issuer.pop(); })),
+    ("noc_issuer_attr_added", |w, a| with_chain(w, a, |n, _, _| n.issuer.push((1, 31)))),
+    ("noc_issuer_attr_tag_changed", |w, a| with_chain(w, a, |n, _, _| for x in n.issuer.iter_mut() { if x.0 == 19 { x.0 = 20 } else if x.0 == 20 { x.0 = 19 } })),
+    ("noc_key_usage_removed", |w, a| with_chain(w, a, |n, _, _| n.ku = None)),
+    ("noc_key_usage_zero", |w, a| with_chain(w, a, |n, _, _| n.ku = Some(0))),
+    ("noc_client_auth_only", |w, a| with_chain(w, a, |n, _, _| n.eku = Some(vec![2]))),
+    ("noc_ext_key_usage_empty", |w, a| with_chain(w, a, |n, _, _| n.eku = Some(vec![]))),
+    ("noc_ext_key_usage_other_purposes", |w, a| with_chain(w, a, |n, _, _| n.eku = Some(vec![3, 4, 1]))),
+    ("noc_icac_attr_before_node_attr", |w, a| with_chain(w, a, |n, _, _| n.subject.insert(0, (19, 5)))),
+    ("noc_ca_shaped_with_node_id", |w, a| with_chain(w, a, |n, _, _| { n.subject.insert(0, (19, 5)); n.bc = Some((true, None)); n.ku = Some(0x60); n.eku = None; })),
+    ("ok_noc_noncritical_extension", |w, a| with_chain(w, a, |n, _, _| n.fx = Fx::NonCrit)),
+    ("ok_noc_icac_attr_after_node_attr", |w, a| with_chain(w, a, |n, _, _| n.subject.push((19, 5)))),
+    ("ok_noc_extra_purposes", |w, a| with_chain(w, a, |n, _, _| n.eku = Some(vec![1, 2, 3]))),
+    ("icac_akid_changed", |w, a| with_chain(w, a, |_, i, _| if let Some(i) = i { i.akid = Some(556) })),
+    ("icac_skid_changed", |w, a| with_chain(w, a, |_, i, _| if let Some(i) = i { i.skid = Some(557) })),
+    ("icac_skid_removed", |w, a| with_chain(w, a, |_, i, _| if let Some(i) = i { i.skid = None })),
+    ("icac_subject_value_changed", |w, a| with_chain(w, a, |_, i, _| if let Some(i) = i { i.subject[0].1 ^= 2 })),
+    ("icac_issuer_name_changed", |w, a| with_chain(w, a, |_, i, _| if let Some(i) = i { i.issuer[0].1 ^= 2 })),
+    ("icac_not_yet_valid", |w, a| with_chain(w, a, |_, i, _| if let Some(i) = i { i.nb = (NOW_S + 100_000) as u32 })),
+    ("icac_critical_extension", |w, a| with_chain(w, a, |_, i, _| if let Some(i) = i { i.fx = Fx::Crit })),
+    ("icac_no_basic_constraints", |w, a| with_chain(w, a, |_, i, _| if let Some(i) = i { i.bc = None })),
+    ("icac_key_usage_removed", |w, a| with_chain(w, a, |_, i, _| if let Some(i) = i { i.ku = None })),
+    ("icac_sig_by_stray_key", |w, a| with_chain(w, a, |_, i, _| if let Some(i) = i { i.sig = Sig::Good(9) })),
+    ("icac_without_type_attr", |w, a| with_chain(w, a, |n, i, _| if let Some(i) = i { i.subject.retain(|x| x.0 != 19); i.subject.push((1, 31)); n.issuer = i.subject.clone(); })),
+    ("ok_icac_rcac_attr", |w, a| with_chain(w, a, |n, i, _| if let Some(i) = i { for x in i.subject.iter_mut() { if x.0 == 19 { x.0 = 20 } } n.issuer = i.subject.clone(); })),
+    ("ok_icac_pathlen_absent", |w, a| with_chain(w, a, |_, i, _| if let Some(i) = i { i.bc = Some((true, None)) })),
+    ("icac_dropped", |w, a| { if a { w.a[0].icac = None } else { w.b[0].icac = None }; true }),
+    ("icac_is_the_noc_repeated", |w, a| { if a { w.a[0].icac = Some(w.a[0].noc) } else { w.b[0].icac = Some(w.b[0].noc) }; true }),
+    // world without ICACs only ("member_"): a GENUINE member NOC in the ICAC slot, the leaf issued by it with the
+    // member's operational key (any fabric member minting identities); and the root itself in the ICAC slot
+    ("member_noc_as_intermediate", |w, a| member_as_intermediate(w, a, false)),
+    ("member_noc_as_intermediate_other_node_id", |w, a| member_as_intermediate(w, a, true)),
+    ("member_ok_root_reused_as_intermediate", |w, a| { if a { w.a[0].icac = Some(w.a[0].root) } else { w.b[0].icac = Some(w.b[0].root) }; true }),
     ("four_cats", |w, a| with_chain(w, a, |n, _, _| { for c in [0x10001u64, 0x20001, 0x30001, 0x40001] { n.subject.push((22, c)); } })),
 ];
+
+/// The node's genuine NOC M (issued by the root) moves into the ICAC slot; the presented leaf is a new
+/// NOC for the stray key 9, issued BY M: issuer name = M's subject, authority key id = M's key id, signed
+/// with M's operational key.  `other_id`: the leaf claims another node id (and a CAT).
+fn member_as_intermediate(w: &mut World, on_a: bool, other_id: bool) -> bool {
+    let fs = if on_a { w.a[0].clone() } else { w.b[0].clone() };
+    if fs.icac.is_some() {
+        return false;
+    }
+    let m = w.certs[fs.noc].clone();
+    let node = m.subject.iter().find(|x| x.0 == 17).unwrap().1;
+    let mut leaf = noc_cert(9, if other_id && on_a { 0x100 } else { node }, 9, if other_id { &[0x00FF_0001] } else { &[] }, &m);
+    leaf.skid = Some(699);
+    let l = w.cert(leaf);
+    let t = if on_a { &mut w.a[0] } else { &mut w.b[0] };
+    t.icac = Some(fs.noc);
+    t.noc = l;
+    t.sk = 9;
+    true
+}
 
 /// defects of the trust anchor a node holds (the OTHER node's chain then does not verify against it)
 fn root_path_len_zero(w: &mut World, at_a: bool) {
@@ -1515,6 +1570,12 @@ fn message_mutations(dir: u8, k: usize, tags: &[u8], nfields: usize, prev: Optio
     v.push(format!("{}d1", p));
     v.push(format!("{}u", p));
     v
+}
+
+/// one bit flip in byte `b` of the element with tag `t` of message (dir, k)
+fn byte_flips(dir: u8, k: usize, t: u8, len: usize, all: bool, rng: &mut Rng) -> Vec<String> {
+    let bytes: Vec<usize> = if all { (0..len).collect() } else { let mut v = vec![0, len / 2 - 1, len / 2, len - 1]; v.dedup(); v };
+    bytes.into_iter().map(|b| format!("{}.{}.fb:{}:{}", dir, k, t, b * 8 + rng.below(8) as usize)).collect()
 }
 
 fn generate(tier: &str, seed: u64) -> (Vec<String>, BTreeMap<String, u64>) {
@@ -1600,7 +1661,10 @@ fn generate(tier: &str, seed: u64) -> (Vec<String>, BTreeMap<String, u64>) {
     for (name, f) in DEFECTS {
         for on_a in [true, false] {
             for icac in [0u8, 3] {
-                if name.starts_with("icac_") && icac == 0 {
+                if (name.starts_with("icac_") || name.starts_with("ok_icac_")) && icac == 0 {
+                    continue;
+                }
+                if name.starts_with("member_") && icac != 0 {
                     continue;
                 }
                 let mut w = base_world(icac, &[], &[]);
@@ -1634,6 +1698,12 @@ fn generate(tier: &str, seed: u64) -> (Vec<String>, BTreeMap<String, u64>) {
         for (dir, k, tags, nf, name) in msgs {
             for m in message_mutations(dir, k, tags, nf, Some(0), &mut rng, thorough) {
                 // run 0 = an honest full handshake (source of substituted / replayed values); caches cleared
+                g.push("mitm", w, &format!("w{}_{}_{}", wi, name, m.replace(':', "_")), &[h(1, NODE_B, ""), "cc:A".into(), "cc:B".into(), h(1, NODE_B, &m)]);
+            }
+        }
+        // a bit in the first, the middle and the last byte (thorough: every byte) of the randoms, ephemeral keys, destination id
+        for (dir, k, t, len, name) in [(0u8, 0usize, 1u8, 32usize, "sigma1_random"), (0, 0, 3, 32, "sigma1_destid"), (0, 0, 4, 65, "sigma1_key"), (1, 0, 1, 32, "sigma2_random"), (1, 0, 3, 65, "sigma2_key")] {
+            for m in byte_flips(dir, k, t, len, thorough, &mut rng) {
                 g.push("mitm", w, &format!("w{}_{}_{}", wi, name, m.replace(':', "_")), &[h(1, NODE_B, ""), "cc:A".into(), "cc:B".into(), h(1, NODE_B, &m)]);
             }
         }
@@ -1681,6 +1751,15 @@ fn generate(tier: &str, seed: u64) -> (Vec<String>, BTreeMap<String, u64>) {
                 g.push("resume", &w, &format!("{}_{}", name, m.replace(':', "_")), &[h(1, NODE_B, ""), h(1, NODE_B, ""), h(1, NODE_B, &m)]);
             }
         }
+        // RESUMED runs (added after the external seeded change C01-mut2): a bit in byte 0, 15, 16, 31 (thorough: every
+        // byte) of the initiator random, and in the first / middle / last byte of the resumption id, of both MICs, of
+        // the new resumption id and of the responder session id
+        for (dir, k, t, len, name) in [(0u8, 0usize, 1u8, 32usize, "sigma1r_random"), (0, 0, 6, 16, "sigma1r_rid"), (0, 0, 7, 16, "sigma1r_mic"), (0, 0, 3, 32, "sigma1r_destid"),
+                                       (1, 0, 1, 16, "sigma2resume_rid"), (1, 0, 2, 16, "sigma2resume_mic"), (1, 0, 3, 2, "sigma2resume_sessid")] {
+            for m in byte_flips(dir, k, t, len, thorough, &mut rng) {
+                g.push("resume", &w, &format!("{}_{}", name, m.replace(':', "_")), &[h(1, NODE_B, ""), h(1, NODE_B, &m)]);
+            }
+        }
         for (label, ops) in [
             ("sigma2resume_lost_then_old_sigma1_replayed", vec![h(1, NODE_B, ""), h(1, NODE_B, "1.0.x"), h(1, NODE_B, "0.0.rp:1:0:0")]),
             ("finished_lost_then_old_sigma1_replayed_and_finished_forged", vec![h(1, NODE_B, ""), h(1, NODE_B, "0.1.x"), h(1, NODE_B, "0.0.rp:1:0:0+0.1.st:0:0")]),
@@ -1712,7 +1791,7 @@ fn generate(tier: &str, seed: u64) -> (Vec<String>, BTreeMap<String, u64>) {
         let mut label = String::from("rand");
         if rng.chance(1, 4) {
             let (name, f) = rng.pick(DEFECTS);
-            if !(name.starts_with("icac_") && icac != 3) && f(&mut w, rng.chance(1, 2)) {
+            if !((name.starts_with("icac_") || name.starts_with("ok_icac_")) && icac != 3) && !(name.starts_with("member_") && icac != 0) && f(&mut w, rng.chance(1, 2)) {
                 label = format!("rand_{}", name);
             }
         }
